@@ -240,11 +240,52 @@ def block_done_siblings(ck, P):
         ck.decide(okt, "CUT/deferred-literal", "deflate_slow:tally", "tally_lit on the match_available edge", "the match_available edge no longer tallies the deferred literal", where(slow))
 
 
+def leftover_flush_continues(ck, P, R="CUT/leftover-flush-continues"):
+    """deflate() begins by writing out what the previous call could not deliver.  If the output fills up again it returns;
+    otherwise it goes on to the normal processing - in particular to the rest of an interrupted flush (the marker, the
+    alignment bits).  So inside the branch taken when output was left over, the only return is the one under
+    `avail_out == 0`."""
+    f = P.fn(Z + "deflate::deflate")
+    if not ck.anchor("fn deflate::deflate", f):
+        return
+    ck.use_fn(f)
+    cands = []
+    for b in sorted(f.live):
+        if f.blocks[b]["t"]["k"] != "switch":
+            continue
+        for lab, tb in f.succ[b]:
+            if lab is None or lab[0] == "const":
+                continue
+            for a in f.edge_atoms(b, lab):
+                g = sig.sig(a, f)
+                if any(c.endswith("is_empty") for c in g.calls) and "pending" in g.names and g.rel == "false":
+                    cands.append((len(f.dominators_of(b)), b, tb))
+    if not ck.anchor("leftover-output test at the top of deflate()", bool(cands)):
+        return
+    depth, b0, t0 = sorted(cands)[0]
+    region = {x for x in f.live if x == t0 or ("b", t0) in f.dominators_of(x)}
+    bad = []
+    n = 0
+    for bi, si, rv in f.defs.get(0, []):
+        if rv is None or bi not in region:
+            continue
+        n += 1
+        gs = shape.dominating_sigs(f, bi)
+        if not any(g.rel == "Eq" and "avail_out" in g.names and 0 in g.consts for g in gs):
+            line = f.blocks[bi]["s"][si].get("line") if isinstance(si, int) else None
+            bad.append(line)
+    ck.decide(n >= 1 and not bad, R, "deflate:leftover", "after writing leftover output deflate() returns only when the output is full again",
+              "deflate() can return from the leftover-output branch with output space still available (near line %s): a flush that was "
+              "interrupted by a full output buffer is then never completed - no marker, bits left in the bit buffer" % (bad[0] if bad else "?"),
+              where(f, bad[0] if bad else None))
+
+
 def run(ck):
     P = prog("K1")
     ck.configs.add("K1")
     flush_arms(ck, P)
     block_done_siblings(ck, P)
+    leftover_flush_continues(ck, P)
     from . import c15 as _c15
     _c15.avoid_spurious_buferror(ck, P)
     from .. import condparity
